@@ -56,20 +56,36 @@ def main():
     finally:
         sh(f"git -C /repo worktree remove --force {wt}")
     out["confirmed"] = out.get("demo_clean_rc") == 0 and out.get("apply_rc") == 0 and out.get("tests_rc") == 0 and out.get("demo_patched_rc", 0) != 0
-    # run the checks against /repo with the patch applied
-    rc, o = sh("git -C /repo status --porcelain")
-    assert o.strip() == "", f"/repo is not clean: {o}"
+    # run the checks against the patched tree. Default: a scratch worktree passed with --root (does not disturb /repo);
+    # with --in-repo: git -C /repo apply ... ; checks ; git -C /repo checkout -- .
     results = {}
-    try:
-        rc, o = sh(f"git -C /repo apply --whitespace=nowarn {patch}")
-        assert rc == 0, o
-        for pid in props:
-            rc, o = sh(f"{VERIF}/vcheck {pid} --no-evidence", cwd=VERIF)
-            lines = [l for l in o.splitlines() if l.startswith("  src/") or l.startswith("ANALYSIS")]
-            results[pid] = {"exit": rc, "report": lines[:3]}
-    finally:
-        sh("git -C /repo checkout -- .")
-        sh("git -C /repo clean -fdq")
+    in_repo = "--in-repo" in sys.argv
+    if in_repo:
+        rc, o = sh("git -C /repo status --porcelain")
+        assert o.strip() == "", f"/repo is not clean: {o}"
+        try:
+            rc, o = sh(f"git -C /repo apply --whitespace=nowarn {patch}")
+            assert rc == 0, o
+            for pid in props:
+                rc, o = sh(f"{VERIF}/vcheck {pid} --no-evidence", cwd=VERIF)
+                lines = [l for l in o.splitlines() if l.startswith("  src/") or l.startswith("ANALYSIS")]
+                results[pid] = {"exit": rc, "report": lines[:3]}
+        finally:
+            sh("git -C /repo checkout -- .")
+    else:
+        wt2 = tempfile.mkdtemp(prefix="seedchk2_", dir="/tmp")
+        os.rmdir(wt2)
+        try:
+            rc, o = sh(f"git -C /repo worktree add -q {wt2} HEAD")
+            assert rc == 0, o
+            rc, o = sh(f"git -C {wt2} apply --whitespace=nowarn {patch}")
+            assert rc == 0, o
+            for pid in props:
+                rc, o = sh(f"{VERIF}/vcheck {pid} --no-evidence --root {wt2}", cwd=VERIF)
+                lines = [l for l in o.splitlines() if l.startswith("  src/") or l.startswith("ANALYSIS")]
+                results[pid] = {"exit": rc, "report": lines[:3]}
+        finally:
+            sh(f"git -C /repo worktree remove --force {wt2}")
     out["checks"] = {k: v["exit"] for k, v in results.items()}
     out["fired"] = {k: v["report"] for k, v in results.items() if v["exit"] == 1}
     out["inconclusive"] = {k: v["report"] for k, v in results.items() if v["exit"] == 2}
